@@ -761,6 +761,16 @@ static int _GD_RenameCode(DIRFILE *D, gd_entry_t *E, char **code,
     }
   }
 
+  /* The field holding this code is about to be modified: its fragment's
+   * metadata must not be protected */
+  if (D->fragment[E->fragment_index].protection & GD_PROTECT_FORMAT) {
+    _GD_SetError(D, GD_E_PROTECTED, GD_E_PROTECTED_FORMAT, NULL, 0,
+        D->fragment[E->fragment_index].cname);
+    free(new_code);
+    dreturn("%i", -1);
+    return -1;
+  }
+
   /* Store the update in the struct */
   if (rdat->up_size == rdat->n_up) {
     void *ptr = _GD_Realloc(D, rdat->up,
